@@ -36,7 +36,7 @@ namespace sim {
     X(frame_read_row, "C15", 0) X(frame_read_cell, "C15", 0) X(frame_read_col, "C15", 0) \
     X(abuse_array, "C16", 1) X(abuse_dims, "C16", 1) X(abuse_tag, "C16", 1) X(abuse_none, "C16", 1) \
     X(abuse_frame, "C16", 1) X(abuse_misc, "C16", 1) \
-    X(force_id, "C12", 1) X(mk_graph, "C04", 1) X(abuse_tagging, "C16", 1) X(mk_fitted, "C04", 1) \
+    X(force_id, "C12", 1) X(mk_graph, "C04", 1) X(abuse_tagging, "C16", 1) X(mk_fitted, "C04", 1) X(abuse_legacy, "C16", 1) \
     X(ro_catalogue, "C09", 0) X(mode_probe, "C09", 0) X(version_cube, "C10", 0) X(xp, "C12", 0)
 
 enum OpKind {
